@@ -36,7 +36,7 @@ def cobs(snap, occ, sep=", "):
 
 
 def ischedule_expr(configured, enter, first, snap0, occ0, out):
-    steps = ["(%s, %s, %s, [%s])" % (ilabel(l), vf.cbool(app), cobs(snap, occ), "; ".join(cdel(d) for d in dels)) for (l, app, snap, dels, occ, exc) in out]
+    steps = ["(%s, %s, %s, [%s])" % (ilabel(l), vf.cbool(app), cobs(snap, occ), "; ".join(cdel(d) for d in dels)) for (l, app, snap, dels, occ, exc, *_) in out]
     return "chk_ischedule %s [%s] [%s] %s [%s]" % (vf.cbool(configured), "; ".join(cdel(d) for d in enter), "; ".join(cdel(d) for d in first), cobs(snap0, occ0, " "), "; ".join(steps))
 
 
@@ -57,10 +57,10 @@ def interleaved(ctx):
         else:
             enter, (first, snap0, occ0), out, alive = lifecycle_i.run_schedule(configured, fixed)
         exprs.append(ischedule_expr(configured, enter, first, snap0, occ0, out))
-        labels = [l for (l, app, snap, dels, occ, exc) in out if app]
+        labels = [l for (l, app, snap, dels, occ, exc, *_) in out if app]
         reached, conc, ready_open = set(), 0, False
         prev_occ = occ0
-        for j, (l, app, snap, dels, occ, exc) in enumerate(out):
+        for j, (l, app, snap, dels, occ, exc, *_) in enumerate(out):
             if not app:
                 continue
             hist = [x[0] for x in out[:j + 1] if x[1]]
